@@ -424,6 +424,35 @@ pub fn run(rng: &mut Rng, tier: &str, out: &str) -> Report {
             }
             rep.case(None);
         }
+        // C12 / C05: the earliest "earlier point" is the empty document: fed every piece of the file (the save and the
+        // incremental saves) through load_incremental, in order or shuffled (a later piece that arrives first is
+        // held back until the save arrives), it becomes equal to the writer
+        {
+            let all_pieces: Vec<Vec<u8>> = chunk_spans(&w.file).iter().map(|s| w.file[s.0..s.1].to_vec()).collect();
+            for mode in 0..3 {
+                let mut reader = Automerge::new_with_encoding(enc);
+                let mut order: Vec<usize> = (0..all_pieces.len()).collect();
+                if mode == 1 {
+                    order.reverse();
+                }
+                if mode == 2 {
+                    rng.shuffle(&mut order);
+                }
+                let mut ok = true;
+                for i in &order {
+                    if guard(|| reader.load_incremental(&all_pieces[*i])).map(|r| r.is_err()).unwrap_or(true) {
+                        ok = false;
+                    }
+                }
+                if !ok || &fingerprint(&reader, &w.cands) != w.snapshots.last().unwrap() {
+                    rep.fail(&["C12", "C05"], "store|catch-up-from-empty-differs",
+                        &format!("an empty document fed every piece of the file through load_incremental (order {:?}) does not equal the writer", order),
+                        json!({"log": w.log, "order": order, "file": hex(&w.file)}));
+                }
+                rep.case(None);
+                rep.count("c12_from_empty");
+            }
+        }
         // save_after(heads) = the changes since those heads
         {
             let mut wr = w.writer.clone();
